@@ -99,20 +99,21 @@ pub fn obs_decode(bytes: &[u8]) -> String {
     }
 }
 
-pub fn op_enc(h: &DataTelegramHeader, pdu: &[u8]) -> String {
+pub fn op_enc(h: &DataTelegramHeader, pdu: &[u8], rest: &[u8]) -> String {
     format!(
-        "enc {} {} {} {} {} {}",
+        "enc {} {} {} {} {} {} {}",
         h.da,
         h.sa,
         opt_u8(h.dsap),
         opt_u8(h.ssap),
         show_fc(h.fc),
-        hex(pdu)
+        hex(pdu),
+        hex(rest)
     )
 }
 
-/// Drive `TelegramTx::send_data_telegram` on a 256 byte buffer; returns (observation, bytes if ok).
-pub fn obs_encode(h: &DataTelegramHeader, pdu: &[u8]) -> (String, Option<Vec<u8>>) {
+/// Drive `TelegramTx::send_data_telegram` on a 256 byte buffer, then decode `bytes ++ rest`.
+pub fn obs_encode(h: &DataTelegramHeader, pdu: &[u8], rest: &[u8]) -> String {
     let tl = h.telegram_len(pdu.len());
     let r = guarded(|| {
         let mut buf = [0xAAu8; 256];
@@ -120,62 +121,130 @@ pub fn obs_encode(h: &DataTelegramHeader, pdu: &[u8]) -> (String, Option<Vec<u8>
         let resp = tx.send_data_telegram(h.clone(), pdu.len(), |b| b.copy_from_slice(pdu));
         (buf[..resp.bytes_sent()].to_vec(), resp.expects_reply())
     });
-    // what the model calls `expectsReplyOf` is only observable on success; on panic print the
-    // value the public contract implies so both sides have the same line shape.
+    // `expects_reply` is only observable on success; on panic print the value the public contract
+    // implies so both sides have the same line shape.
     let exp_static = match h.fc {
         FunctionCode::Request { req, .. } if req.expects_reply() => Some(h.da),
         _ => None,
     };
     match r {
-        Some((bytes, exp)) => (
-            format!("ok {} exp={} len={}", hex(&bytes), opt_u8(exp), tl),
-            Some(bytes),
-        ),
-        None => (format!("panic exp={} len={}", opt_u8(exp_static), tl), None),
+        Some((mut bytes, exp)) => {
+            let s = format!("ok {} exp={} len={}", hex(&bytes), opt_u8(exp), tl);
+            bytes.extend_from_slice(rest);
+            format!("{} | {}", s, obs_decode(&bytes))
+        }
+        None => format!("panic exp={} len={}", opt_u8(exp_static), tl),
+    }
+}
+
+fn parse_fc(s: &str) -> Option<FunctionCode> {
+    let p: Vec<&str> = s.split('.').collect();
+    match p.as_slice() {
+        ["q", f, r] => {
+            let fcb = match *f {
+                "F" => FrameCountBit::First,
+                "H" => FrameCountBit::High,
+                "L" => FrameCountBit::Low,
+                "I" => FrameCountBit::Inactive,
+                _ => return None,
+            };
+            let req = RequestType::from_u8(r.parse().ok()?)?;
+            Some(FunctionCode::Request { fcb, req })
+        }
+        ["r", a, b] => Some(FunctionCode::Response {
+            state: ResponseState::from_u8(a.parse().ok()?)?,
+            status: ResponseStatus::from_u8(b.parse().ok()?)?,
+        }),
+        _ => None,
+    }
+}
+
+pub fn parse_opt_u8(s: &str) -> Option<Option<u8>> {
+    if s == "-" {
+        Some(None)
+    } else {
+        s.parse().ok().map(Some)
+    }
+}
+
+pub fn parse_header(w: &[&str]) -> Option<DataTelegramHeader> {
+    Some(DataTelegramHeader {
+        da: w[0].parse().ok()?,
+        sa: w[1].parse().ok()?,
+        dsap: parse_opt_u8(w[2])?,
+        ssap: parse_opt_u8(w[3])?,
+        fc: parse_fc(w[4])?,
+    })
+}
+
+/// Execute one operation line on the real code.
+pub fn exec(line: &str) -> String {
+    let w: Vec<&str> = line.split(' ').collect();
+    match w.as_slice() {
+        ["fcb", b] => {
+            let b: u8 = b.parse().unwrap();
+            match FunctionCode::from_byte(b) {
+                Ok(fc) => format!("ok {} {}", show_fc(fc), fc.to_byte()),
+                // the error type is not exported; its Debug name identifies the kind
+                Err(e) => match format!("{e:?}").as_str() {
+                    "InvalidRequestType" => "err req".to_string(),
+                    "InvalidResponseState" => "err state".to_string(),
+                    "InvalidResponseStatus" => "err status".to_string(),
+                    other => format!("err ?{other}"),
+                },
+            }
+        }
+        ["sc", rest] => {
+            let mut buf = [0u8; 256];
+            let r = TelegramTx::new(&mut buf).send_short_confirmation();
+            let mut bytes = buf[..r.bytes_sent()].to_vec();
+            let s = format!("ok {}", hex(&bytes));
+            bytes.extend(unhex(rest));
+            format!("{} | {}", s, obs_decode(&bytes))
+        }
+        ["tok", da, sa, rest] => {
+            let mut buf = [0u8; 256];
+            let r = TelegramTx::new(&mut buf).send_token_telegram(da.parse().unwrap(), sa.parse().unwrap());
+            let mut bytes = buf[..r.bytes_sent()].to_vec();
+            let s = format!("ok {}", hex(&bytes));
+            bytes.extend(unhex(rest));
+            format!("{} | {}", s, obs_decode(&bytes))
+        }
+        ["enc", a, b, c, d, e, pdu, rest] => match parse_header(&[a, b, c, d, e]) {
+            Some(h) => obs_encode(&h, &unhex(pdu), &unhex(rest)),
+            None => "bad-op".to_string(),
+        },
+        ["dec", h] => obs_decode(&unhex(h)),
+        _ => "bad-op".to_string(),
     }
 }
 
 const ADDRS: [u8; 9] = [0, 1, 2, 63, 64, 125, 126, 127, 7];
 
-fn enc_case(out: &mut Out, rng: &mut Rng, h: DataTelegramHeader, pdu_len: usize) {
+fn enc_case(ops: &mut Vec<String>, rng: &mut Rng, h: DataTelegramHeader, pdu_len: usize) {
     let pdu = match rng.below(8) {
         0 => vec![0u8; pdu_len],
         1 => vec![0xffu8; pdu_len],
         _ => rng.bytes(pdu_len),
     };
-    let (obs, bytes) = obs_encode(&h, &pdu);
-    out.put(&op_enc(&h, &pdu), &obs);
-    if let Some(bytes) = bytes {
-        out.put(&format!("dec {}", hex(&bytes)), &obs_decode(&bytes));
-        // with trailing bytes: must consume exactly the frame
-        let mut ext = bytes.clone();
-        let n = 1 + rng.below(4) as usize;
-        ext.extend(rng.bytes(n));
-        out.put(&format!("dec {}", hex(&ext)), &obs_decode(&ext));
-    }
+    let rest = match rng.below(3) {
+        0 => vec![],
+        _ => {
+            let n = 1 + rng.below(4) as usize;
+            rng.bytes(n)
+        }
+    };
+    ops.push(op_enc(&h, &pdu, &rest));
 }
 
-pub fn run(out: &mut Out, seed: u64, thorough: bool) {
+pub fn gen(ops: &mut Vec<String>, seed: u64, thorough: bool) {
     let mut rng = Rng::new(seed, "codec", 0);
     // all 256 function code bytes
     for b in 0..=255u8 {
-        let obs = match FunctionCode::from_byte(b) {
-            Ok(fc) => format!("ok {} {}", show_fc(fc), fc.to_byte()),
-            // the error type is not exported; its Debug name identifies the kind
-            Err(e) => match format!("{e:?}").as_str() {
-                "InvalidRequestType" => "err req".to_string(),
-                "InvalidResponseState" => "err state".to_string(),
-                "InvalidResponseStatus" => "err status".to_string(),
-                other => format!("err ?{other}"),
-            },
-        };
-        out.put(&format!("fcb {b}"), &obs);
+        ops.push(format!("fcb {b}"));
     }
-    out.put("sc", &{
-        let mut buf = [0u8; 256];
-        let r = TelegramTx::new(&mut buf).send_short_confirmation();
-        format!("ok {}", hex(&buf[..r.bytes_sent()]))
-    });
+    ops.push("sc -".to_string());
+    ops.push("sc e5dc".to_string());
     // tokens: all pairs (thorough) / boundary × all (quick)
     for da in 0..=255u8 {
         for sa in 0..=255u8 {
@@ -184,14 +253,10 @@ pub fn run(out: &mut Out, seed: u64, thorough: bool) {
             } else {
                 (ADDRS.contains(&da) && sa % 8 == 1) || (ADDRS.contains(&sa) && da % 8 == 3) || (da >= 250 && sa >= 250)
             };
-            if !take {
-                continue;
+            if take {
+                let rest = if rng.bool() { vec![] } else { rng.bytes(2) };
+                ops.push(format!("tok {da} {sa} {}", hex(&rest)));
             }
-            let mut buf = [0u8; 256];
-            let r = TelegramTx::new(&mut buf).send_token_telegram(da, sa);
-            let bytes = buf[..r.bytes_sent()].to_vec();
-            out.put(&format!("tok {da} {sa}"), &format!("ok {}", hex(&bytes)));
-            out.put(&format!("dec {}", hex(&bytes)), &obs_decode(&bytes));
         }
     }
     // data telegrams: structural enumeration
@@ -211,7 +276,7 @@ pub fn run(out: &mut Out, seed: u64, thorough: bool) {
                     ssap: if saps & 2 != 0 { Some(rng.u8()) } else { None },
                     fc: *fc,
                 };
-                enc_case(out, &mut rng, h, pdu_len);
+                enc_case(ops, &mut rng, h, pdu_len);
             }
         }
     }
@@ -228,7 +293,7 @@ pub fn run(out: &mut Out, seed: u64, thorough: bool) {
                 ssap: None,
                 fc: *rng.pick(&fcs),
             };
-            enc_case(out, &mut rng, h, 0);
+            enc_case(ops, &mut rng, h, 0);
         }
     }
     // random headers incl. addresses with bit 7 set (outside the round-trip domain: compared, not asserted)
@@ -246,6 +311,6 @@ pub fn run(out: &mut Out, seed: u64, thorough: bool) {
             1 => 240 + rng.below(10) as usize,
             _ => rng.below(248) as usize,
         };
-        enc_case(out, &mut rng, h, l);
+        enc_case(ops, &mut rng, h, l);
     }
 }
